@@ -15,7 +15,7 @@ package alert
 //@ spec younger(a *Alert, o *Alert) *Alert = o.UpdatedAt < a.UpdatedAt ? a : o
 //@ spec elder(a *Alert, o *Alert) *Alert = o.UpdatedAt < a.UpdatedAt ? o : a
 //@ func (*Alert).Merge
-//@   props C13
+//@   props C13 C14 C05
 //@   requires a != nil && o != nil
 //@   ensures [fresh] result != nil && fresh(result)
 //@   ensures [younger-supplies] result.Labels == younger(a, o).Labels && result.Annotations == younger(a, o).Annotations && result.UpdatedAt == younger(a, o).UpdatedAt
